@@ -7,4 +7,9 @@ TEXT = {
         "level_text": "Generated-input exploration: thousands of (payload, format, checksum, uncompress) round trips incl. multi-MiB payloads, every single-bit flip and truncation of small CRC envelopes, sampled ones of large envelopes, and arbitrary envelopes (all 256 header bytes, valid colour/gray JPEG, lying LZ4 lengths). A pure function over byte strings, so generated search with a round-trip/CRC oracle is the natural level; absence of failures is not a proof.",
         "level_note": "Trusts Go's snappy/gzip/crc32 and the cgo LZ4 binding as reference decompressors for the uncompress=false branch; header-byte corruption (which can legitimately switch the checksum off) is only in the no-crash domain.",
     },
+    "C18": {
+        "technique": "property-based testing (rapid): round-trip + order oracle for key codecs, voxel-set model for the RLE algebra, span-membership model for ROI ptquery/mask/VoxelBoundsInside over HTTP; native go fuzz target for ReadRLEs in thorough",
+        "level_text": "Generated-input exploration with explicit oracles: byte order vs numeric (z,y,x) order for pairs of boundary-biased int32 coordinates; injectivity and round trip of the packed index over |c|<2^20; every RLE operation compared as a voxel set with a naive map; ROI answers compared with membership computed from the posted spans (incl. negative coordinates). The functions are pure/small so thousands of cases per second are explored; no absence claim.",
+        "level_note": "Run coordinates are kept within +-2^30 (no int32 overflow of start+length); runs are non-overlapping as the property states; ROI block sizes 16 and 32 only.",
+    },
 }
